@@ -219,7 +219,8 @@ func defaultOutcome(w *World) string {
 	for _, c := range w.Cmds {
 		e := "ok"
 		if c.Err != nil {
-			e = c.Err.Error()
+			// (error texts may name files of this execution's scratch directory)
+			e = strings.ReplaceAll(c.Err.Error(), w.Dir, "<dir>")
 		}
 		if !c.Done {
 			e = "unfinished"
